@@ -2,7 +2,9 @@ package lib
 
 import (
 	"bytes"
+	"errors"
 	"fmt"
+	"io"
 	"mime"
 	"path"
 
@@ -45,12 +47,19 @@ func plainReference(mediatype string, data []byte, key string) *plainRef {
 var c12Entries = []int{EPlain, EBytes, EString, EReader, EWriter, ERespWriter, EMiddleware, EMiddleErr, EMatch}
 
 var mtExt = map[string]string{"text/html": ".html", "text/css": ".css", "application/javascript": ".js",
-	"application/json": ".json", "image/svg+xml": ".svg", "text/xml": ".xml", MTStream: ".strm", MTFail: ".fail"}
+	"application/json": ".json", "image/svg+xml": ".svg", "text/xml": ".xml", MTStream: ".strm", MTFail: ".fail", MTEarly: ".early"}
 
-func errText(e error) string {
+// errText never panics: a broken tree may hand back an error interface that wraps a nil
+// pointer.
+func errText(e error) (s string) {
 	if e == nil {
 		return "<nil>"
 	}
+	defer func() {
+		if r := recover(); r != nil {
+			s = fmt.Sprintf("<error value %T whose Error() panics: %v>", e, r)
+		}
+	}()
 	return e.Error()
 }
 
@@ -291,8 +300,13 @@ func c12Case(env *Env, tape *sim.Tape) *CaseOut {
 		if op.W.Calls != op.AtCloseN {
 			return fail("write-after-close", "the second Close wrote to the underlying writer")
 		}
-		if len(op.WriteErrs) > 0 && ref.Err == nil && !ref.Nil {
+		if len(op.WriteErrs) > 0 && ref.Err == nil && !ref.Nil && !errors.Is(op.WriteErrs[0], io.ErrClosedPipe) {
+			// io.ErrClosedPipe is what a producer gets when the minifier has already returned
+			// (it did not need the rest of the input); anything else is a lost write
 			return fail("write-error", "producer Write failed although the minifier succeeded: "+errText(op.WriteErrs[0]))
+		}
+		if len(op.WriteErrs) > 0 {
+			out.stat("probe_producer_write_after_minifier_returned", 1)
 		}
 	}
 	if isHTTP {
